@@ -64,6 +64,18 @@ fn lattice() -> Vec<BigUint> {
       }
     }
   }
+  // values with STRUCTURE rather than magnitude: every combination of characteristic 64-bit limbs (zero, one,
+  // top bit, all ones, repeated bytes, top+bottom bit, 2^64-12451, 2^32) in the two low limbs, in the
+  // standard AND in the Montgomery domain (a limb routine wrong for a zero / saturated / carry-generating
+  // limb in one position)
+  let limb_vals: [u64; 8] = [0, 1, 1 << 63, u64::MAX, 0x0101_0101_0101_0101, 0x8000_0000_0000_0001, u64::MAX - 12450, 1 << 32];
+  for &l0 in &limb_vals {
+    for &l1 in &limb_vals {
+      let m = (BigUint::from(l1) << 64usize) + BigUint::from(l0);
+      v.push(m.clone());
+      v.push(rm::mulm(&m, &rinv));
+    }
+  }
   v.sort();
   v.dedup();
   v
